@@ -386,6 +386,13 @@ def run_check(check: Check, replay=None):
 
         violation = None
         searched = 0
+        from . import translator
+        kernels = translator.check_kernels(check.pid)
+        for kr in kernels:
+            if kr["status"] == "broken":
+                tie_fail.append((None, Failure("tie", "kernel-equivalence:" + kr["kernel"],
+                                               "the Gallina translation of the CURRENT source of this kernel is no "
+                                               "longer provably equal to the model's term: " + kr["detail"])))
         xc_n, xc_err = extraction_cross_check(check, random.Random(check.seed + 5))
         if xc_err:
             tie_fail.append((None, Failure("tie", "extraction-cross-check",
@@ -421,6 +428,8 @@ def run_check(check: Check, replay=None):
                 "broken": ("theorem/property file " + info.get("theorem_file", "")
                            if f.subclaim == "proof-obligation" else
                            "extraction: runner vs vm_compute" if f.subclaim == "extraction-cross-check" else
+                           "generated lemma gen_k_ok for kernel " + f.subclaim.split(":", 1)[1]
+                           if f.subclaim.startswith("kernel-equivalence:") else
                            f"correspondence impl == model ({f.subclaim}) of {check.pid}"),
                 "oracle_only_cases_searched": searched})
             violation = f"VIOLATION property={check.pid} replay={path} no-failing-input-found"
@@ -459,6 +468,8 @@ def run_check(check: Check, replay=None):
             "corpus_cases": len(corpus),
             "violation_search_cases": searched,
             "extraction_cross_checked_in_coq": xc_n,
+            "kernels_regenerated_from_source_and_proved_equal": [k["kernel"] for k in kernels if k["status"] == "tied"],
+            "translator_fallback": [k["kernel"] + ": " + k["detail"] for k in kernels if k["status"] == "fallback"],
             "input_distribution": check.dist,
             "exhaustive": False,
         },
